@@ -8,5 +8,12 @@ export GOFLAGS=-mod=mod GOPROXY=off GOSUMDB=off GOTOOLCHAIN=local GOCACHE=$VERIF
 cd "$VERIF/mc"
 sed "s#@REPO@#${VERIF_REPO:-/repo}#" go.mod.tmpl > go.mod
 cat "${VERIF_REPO:-/repo}/go.sum" > go.sum
-go build -o "$VERIF/bin/check" ./cmd/check
+go build -o "$VERIF/bin/gen" ./cmd/gen
+"$VERIF/bin/gen" "${VERIF_REPO:-/repo}" "$VERIF/bin/overlay.setup" instrument >/dev/null
+go build -overlay "$VERIF/bin/overlay.setup/overlay.json" -o "$VERIF/bin/check" ./cmd/check
+"$VERIF/bin/gen" "${VERIF_REPO:-/repo}" "$VERIF/bin/overlay.setup" >/dev/null
+go build -overlay "$VERIF/bin/overlay.setup/overlay.json" -o "$VERIF/bin/check" ./cmd/check
+# warm the -race build cache (C19's auxiliary race-detector pass)
+go build -race -overlay "$VERIF/bin/overlay.setup/overlay.json" -o "$VERIF/bin/check.race" ./cmd/check
+rm -rf "$VERIF/bin/overlay.setup" "$VERIF/bin/check.race"
 echo "setup ok: $("$VERIF/bin/check" list | tr '\n' ' ')"
